@@ -201,7 +201,7 @@ def run_lines(binary, args, lines, timeout=3000, env=None):
     res = {}
     for l in p.stdout.splitlines():
         if " => " in l:
-            k, v = l.split(" => ", 1)
+            k, v = l.rsplit(" => ", 1)
             res[k] = v
     return res, p.returncode, p.stderr
 
